@@ -156,7 +156,15 @@ func execAllPaths(in In, em *Emitter) {
 	t := in.I("T")
 	from, to := in.U64("from"), in.U64("to")
 	var ps []uint64
-	abn := guard(func() { ps = bmtree.AllPaths(int32(t), from, to) })
+	abn := guard(func() {
+		ps = bmtree.AllPaths(int32(t), from, to)
+		// the result is looked at only after the same call was made again and ITS result overwritten: a returned
+		// slice belongs to the caller
+		again := bmtree.AllPaths(int32(t), from, to)
+		for i := range again {
+			again[i] = ^uint64(0)
+		}
+	})
 	o := J{"paths": hls(ps)}
 	if abn != "" {
 		o = J{}
@@ -165,11 +173,28 @@ func execAllPaths(in In, em *Emitter) {
 	em.Calls(1)
 }
 
+// decodeAgain makes a further Decode call on a different bitmap (the same one without its lowest 1-bit) between
+// a Decode call and the projection of its result: a returned slice belongs to the caller and must not change
+// when the library is used again.
+func decodeAgain(t int32, bm []uint64) {
+	other := append([]uint64{}, bm...)
+	for i, w := range other {
+		if w != 0 {
+			other[i] = w & (w - 1)
+			break
+		}
+	}
+	bmtree.Decode(t, other)
+}
+
 func execDecode(in In, em *Emitter) {
 	t := in.I("T")
 	bm := in.BM("bm")
 	var ps []uint64
-	abn := guard(func() { ps = bmtree.Decode(int32(t), bm) })
+	abn := guard(func() {
+		ps = bmtree.Decode(int32(t), bm)
+		decodeAgain(int32(t), bm)
+	})
 	o := J{"paths": hls(ps)}
 	if abn != "" {
 		o = J{}
@@ -190,6 +215,7 @@ func execEncDec(in In, em *Emitter) {
 			bm[idx>>6] |= 1 << uint(idx&63)
 		}
 		ps = bmtree.Decode(int32(t), bm)
+		decodeAgain(int32(t), bm)
 	})
 	o := J{"paths": hls(ps)}
 	if abn != "" {
